@@ -162,6 +162,7 @@ class TraceVcd(Trace):
 
     def set_sampling_points(self, new_indices):
         '''Updates the indices at which data is sampled'''
+        new_indices = list(dict.fromkeys(new_indices))
         self.lookup = dict(enumerate(new_indices))
         new_timestamps = [self.all_timestamps[i] for i in new_indices]
         self.timestamps = list(dict.fromkeys(new_timestamps))
